@@ -17,6 +17,8 @@ INVS = ["LayoutParses", "CorruptRefused", "CorruptMostlyRefused"]
 HI = {"1252": "€éÿ¤‰Ž", "ISO-8859-1": "éÿ¤\xa0\x85", "NONE": "€é漢😀¤"}
 # text that Unicode normalisation would change: the body is handed over as it is in the file
 NOT_NFC = "e\u0301 \u2126 \u212b \u1100\u1161 A\u030a"
+# single-byte text whose bytes happen to be well-formed UTF-8 (the declared character set decides, not a guess)
+UTF8_LOOKALIKE = {"1252": "Ã©Â£â‚¬", "ISO-8859-1": "Ã©Â£"}
 CODEC = {"1252": "cp1252", "ISO-8859-1": "latin_1", "NONE": "utf_8"}
 
 
@@ -36,7 +38,10 @@ def random_files(ctx, rnd, n):
                 head += nm + ":" + bl + v + (sep if k < 8 else "")
             gap = rnd.choice(["", "\n", "\r\n", "\r\n\r\n", "\r", " ", "\n\n\n", "\t\r\n "])
             inner = rnd.choice(["x", HI[cs], "a&amp;b " + HI[cs][:2], "line1\r\nline2", "<B>" + HI[cs][-1] + "</B>"]
-                               + ([NOT_NFC] if cs == "NONE" else []))
+                               + ([NOT_NFC] if cs == "NONE" else [UTF8_LOOKALIKE[cs]]))
+            if cs == "NONE" and rnd.random() < 0.01:
+                # a body larger than any read buffer, multi-byte characters at every offset class
+                inner = "a" * rnd.randrange(0, 4) + rnd.choice(["é", "漢", "😀"]) * rnd.choice([3000, 4200, 9000])
             body = "<OFX>" + rnd.choice(["", "\r\n", "\n  "]) + "<A>" + inner + rnd.choice(["</A>", ""]) + rnd.choice(["", "\n"]) + "</OFX>"
             trail = rnd.choice(["", "", "\n", "\r\n", "  \r\n\r\n"])
             data = head.encode("ascii") + gap.encode("ascii") + body.encode(CODEC[cs]) + trail.encode("ascii")
@@ -54,6 +59,8 @@ def random_files(ctx, rnd, n):
             br1 = rnd.choice(["", "\n", "\r\n", " "])
             br2 = rnd.choice(["", "\n", "\r\n", " ", "\r\n\r\n"])
             inner = rnd.choice(["x", HI["NONE"], "line1\nline2", NOT_NFC])
+            if rnd.random() < 0.012:
+                inner = "a" * rnd.randrange(0, 4) + rnd.choice(["é", "漢", "😀"]) * rnd.choice([3000, 4200, 9000])
             body = "<OFX><A>" + inner + "</A></OFX>"
             data = (rnd.choice(["", "\n"]) + xml + br1 + ofx + br2 + body + rnd.choice(["", "\n"])).encode("utf_8")
             ctx.nontrivial.add((2, xq, oq, len(set(Q)) > 1, br1, br2, inner))
